@@ -207,6 +207,10 @@ class Program:
                 st['label'] = ('G', self.fresh_global(ns))
                 st['src_label'] = st['label'][1].split('.')[-1]
             self.top.append((fidx, ns, st))
+            if st['label'] is not None and ns and rng.random() < 0.35:
+                # a near miss of the namespaced name: `a.b.lab3` and the plain label `a_b_lab3` in the same table
+                twin = st['label'][1].replace('.', '_')
+                self.top.append((rng.randrange(self.nfiles), [], {'kind': 'label', 'label': ('G', twin), 'src_label': twin}))
 
     def fresh_global(self, ns):
         self.gcount += 1
@@ -608,8 +612,30 @@ def directed_cases():
     return out
 
 
+META = ['(', ')', '.', '[', ']', '*', '+', '?', '|', '\\', '^', '$', '{', '}']
+UNBALANCED = ['(2', '2)', 'm(', '[a', 'a{2', '(?', '*x', '+', '\\', 'a\\', '(|', '|', 'a|b', '^f', 'x$', '.*', 'l.:', '[^:]+', '---.', 'f1:l\\d+']
+
+
+def name_slices(rng, k):
+    """substrings of an actual label name, preferring cuts through its punctuation: '(2)', '.', '---', ':l27:'"""
+    out = []
+    marks = [i for i, ch in enumerate(k) if ch in '().:-']
+    if marks and rng.random() < 0.7:
+        m = rng.choice(marks)
+        i = max(0, m - rng.randrange(0, 5))
+        j = min(len(k), m + 1 + rng.randrange(0, 5))
+        out.append(k[i:j])
+    else:
+        i = rng.randrange(len(k))
+        j = rng.randrange(i, len(k)) + 1
+        out.append(k[i:j])
+    return out
+
+
 def make_queries(rng, table):
-    """queries built from the OBSERVED table (exact names, substrings of names, misses, addresses)"""
+    """queries built from the OBSERVED table: exact names; substrings = literal slices of the actual names (cutting through
+    '(n)', '.', '---', ':lN:'), near misses ('.' <-> '_'), every regex metacharacter alone, unbalanced/regex-looking
+    strings; misses; addresses.  Containment is LITERAL and resolution never raises."""
     keys = [k for k, _ in table]
     addrs = [v for _, v in table]
     qs = []
@@ -628,16 +654,20 @@ def make_queries(rng, table):
             else:
                 L.add(rng.choice(['nope', 'f1:l1:m---x', '---:start:', '']))
         S = set()
-        for _ in range(rng.choice([0, 0, 1, 1, 2])):
+        for _ in range(rng.choice([0, 1, 1, 1, 2, 3])):
             r = rng.random()
-            if keys and r < 0.65:
-                k = rng.choice(keys)
-                i = rng.randrange(len(k))
-                j = rng.randrange(i, len(k)) + 1
-                S.add(k[i:j])
-            elif r < 0.75:
-                S.add(rng.choice(['---', ':start:', ':l', 'rep', '.', '(', 'x']))
-            elif r < 0.8:
+            if keys and r < 0.5:
+                S.update(name_slices(rng, rng.choice(keys)))
+            elif keys and r < 0.6:
+                k = rng.choice(keys)                      # a near miss of a real name: '.' <-> '_', '(' -> '_'
+                S.add(k.replace('.', '_') if '.' in k and rng.random() < 0.6 else k.replace('_', '.') if '_' in k else k + '_')
+            elif r < 0.72:
+                S.add(rng.choice(META))
+            elif r < 0.82:
+                S.add(rng.choice(UNBALANCED))
+            elif r < 0.9:
+                S.add(rng.choice(['---', ':start:', ':l', 'rep', 'x', '(1)', '(2)', '.g', ':rep0:']))
+            elif r < 0.93:
                 S.add('')
             else:
                 S.add(rng.choice(['zzz', '----', 'start::', 'f9:']))
@@ -760,20 +790,29 @@ def evaluate_queries(ctx, cases, results, name='c16_bp'):
         if r['outcome'] != 0 or not r.get('queries'):
             continue
         for q in r['queries']:
+            if q.get('exc'):
+                ctx.violation({'kind': 'breakpoint-resolution-raised'},
+                              f'resolving breakpoints raised {q["exc"]} for the substrings {q["S"]} (containment is literal; any '
+                              'characters are allowed)',
+                              {'job': strip_job(c) | {'queries': [{'A': q['A'], 'L': q['L'], 'S': q['S']}]}, 'observed': q,
+                               'table': r['table'][:40], 'how': how()})
             if q['other_output'] or not q['l2a_equal']:
                 ctx.violation({'kind': 'breakpoint-handler-output'}, f'get_breakpoint_handler printed {q["other_output"]} / '
                               'loaded a different table', {'job': strip_job(c), 'query': q, 'how': how()})
             ctx.count(('q', tuple(q['A']), tuple(q['L']), tuple(q['S']), tuple(map(tuple, c['files']))), bool(q['bps']))
             ctx.hist('breakpoints_resolved', min(len(q['bps']), 10))
             ctx.hist('warnings', len(q['warnings']))
-        groups.append(bgroup_term(r['table'], r['queries']))
+        ok_qs = [q for q in r['queries'] if not q.get('exc')]
+        if not ok_qs:
+            continue
+        groups.append(bgroup_term(r['table'], ok_qs))
         meta.append((c, r))
     agree, spec = eval_both(ctx, name, BDEFS, groups, 'chk', 'spc', shard=45)
     # isolate the failing query of a failing group
     terms, tmeta = [], []
     for (c, r), a, s in zip(meta, agree, spec):
         if a is False or s is False:
-            for q in r['queries']:
+            for q in [q for q in r['queries'] if not q.get('exc')]:
                 terms.append(bcase_term(r['table'], q))
                 tmeta.append((c, r, q))
     terms, tmeta = terms[:40], tmeta[:40]
@@ -821,7 +860,23 @@ def run(ctx):
     evaluate_queries(ctx, cases, res2)
     # save/load round trip on hostile and on generated tables
     tables = gen_roundtrip_tables(rng, ctx.n(300, 3000)) + [r['table'] for r in res2[:ctx.n(100, 1000)] if r.get('outcome') == 0]
-    rts = run_jobs(ctx, [{'kind': 'roundtrip', 'tables': tables[i:i + 50]} for i in range(0, len(tables), 50)])
+    # large tables (JSON above the 8 MiB default LZMA2 dictionary / above 16 MiB), a distinctive block of names at the start
+    # recurring at the end, random names in between: built, saved, loaded and queried inside the worker
+    big = [{'kind': 'roundtrip_big', 'mib': m, 'seed': rng.randrange(1 << 30)} for m in ctx.n([9], [7.5, 9, 12, 17, 20])]
+    rts_all = run_jobs(ctx, big + [{'kind': 'roundtrip', 'tables': tables[i:i + 50]} for i in range(0, len(tables), 50)])
+    for j, r in zip(big, rts_all[:len(big)]):
+        x = r['results'][0]
+        ctx.count(('rt-big', j['mib'], j['seed']), True)
+        ok = x.get('equal') and x.get('same_order') and x.get('types_ok') and x.get('bp_ok')
+        ctx.hist('roundtrip_big', f'{j["mib"]}MiB:' + ('ok' if ok else 'differs'))
+        if not ok:
+            ctx.violation({'kind': 'roundtrip', 'size': 'large'},
+                          f'a {j["mib"]} MiB label table ({x.get("entries")} labels) does not survive save_debugging_labels/'
+                          f'load_debugging_labels or its breakpoints do not resolve: {str(x)[:300]}',
+                          {'big_table': j, 'observed': x, 'required': 'the loaded table equals the saved one (content and order); '
+                           'breakpoints resolve against it', 'how': 'workers/labels.py job {"kind": "roundtrip_big", "mib", "seed"}; '
+                           './check C16 --replay <this file>'})
+    rts = rts_all[len(big):]
     flat = [x for r in rts for x in r['results']]
     for t, x in zip(tables, flat):
         ctx.count(('rt', json.dumps(t)[:2000]), len(t) >= 1)
@@ -837,7 +892,9 @@ def run(ctx):
         'rep 0..3, pad, segment, reserve; w in 8/16/32/64; every op carries a unique flip word so its address is read off the image) '
         'assembled by the real assembler with a debugging file: load_debugging_labels (content and order) vs Model/Labels.v, '
         'specification on the observed table+image; 4 random address/exact/substring breakpoint queries per program through '
-        'get_breakpoint_handler vs model and domain specification; save/load on hostile and generated tables; an INVALID family: '
+        'get_breakpoint_handler vs model and domain specification (substrings: literal slices of the real names cutting through (n) . --- :lN:, '
+        'near misses . <-> _, every regex metacharacter, unbalanced strings; resolution must not raise); save/load on hostile and '
+        'generated tables and on large tables (9 MiB of JSON quick, up to 20 MiB thorough, text recurring beyond 8 MiB); an INVALID family: '
         'programs declaring a label twice through every route (plain twice / other file, plain + macro parameter in both orders, '
         'two expansions or a rep with the same argument, namespaces, the same name passed down twice inside a macro, extern in a '
         'macro expanded twice) which must be rejected with "label declared twice" (model: BDup); directed shapes with valid '
@@ -852,6 +909,12 @@ def run(ctx):
 def replay(ctx, path):
     blob = json.loads(open(path).read())
     rp = blob['replay']
+    if 'big_table' in rp:
+        x = run_jobs(ctx, [rp['big_table']])[0]['results'][0]
+        print('[C16] replay against', fw.REPO, '- large label table', rp['big_table'])
+        print('  observed:', x)
+        print('  required: loaded table == saved table (content and order), breakpoints resolve')
+        return 0 if x.get('equal') and x.get('same_order') and x.get('types_ok') and x.get('bp_ok') else 1
     if 'job' not in rp:
         print(f'[C16] replay names a theorem/correspondence or a table, not a program: {list(rp)[:4]}')
         print(json.dumps(rp)[:2000])
@@ -873,4 +936,7 @@ def replay(ctx, path):
                 print(f'  STILL WRONG: {e[1][1]} -> {tbl.get(e[1][1])}, statement at {e[2]}')
                 bad = True
         return 1 if bad or res['outcome'] != 0 else 0
+    if any(q.get('exc') for q in res.get('queries', [])):
+        print('  STILL WRONG: resolving the breakpoints raised')
+        return 1
     return 1 if res['outcome'] in (2, 3) else 0
